@@ -83,14 +83,17 @@ struct XTerm
     }
 };
 
-void t_vterm_cxx(Src &s, Case &c) { run_terminal<XTerm>(s, c, false, "vterm_cxx"); }
-void t_vterm_cxx_enum(Src &s, Case &c) { run_terminal<XTerm>(s, c, true, "vterm_cxx"); }
+void t_vterm_cxx(Src &s, Case &c) { run_terminal<XTerm>(s, c, 0, "vterm_cxx"); }
+void t_vterm_cxx_enum(Src &s, Case &c) { run_terminal<XTerm>(s, c, 1, "vterm_cxx"); }
+void t_vterm_cxx_long(Src &s, Case &c) { run_terminal<XTerm>(s, c, 2, "vterm_cxx"); }
 
 } // namespace
 
 VP_TARGET("vterm_cxx", t_vterm_cxx,
           "igris::vtermxx (+ a stand-alone igris::readline fed the same bytes, for the length/cursor accessors): same generator and checks as vterm_c; "
           "non-trivial = an edit with the cursor inside the line, a history recall after >= 2 stored lines, or typing into a full line");
+VP_TARGET("vterm_cxx_long", t_vterm_cxx_long,
+          "igris::vtermxx with line capacity 250..262: same generator and checks as vterm_c_long");
 VP_TARGET("vterm_cxx_enum", t_vterm_cxx_enum,
           "exhaustive (igris::vtermxx): every sequence of <= 5 (quick) / <= 7 (thorough) keys over {a,b,BS,LEFT,RIGHT,DEL,UP,DOWN,CR,LF,^C,ESC-x} x capacity {2,3,4,8} x history depth {1,2}",
           term_enum_size);
